@@ -6,6 +6,14 @@ sys.path.insert(0, ROOT)
 TECH = "bounded symbolic execution of the real Python code (CrossHair 0.0.110) with z3 deciding every path; counterexamples replayed concretely"
 
 CHECKS = {
+    "C20": dict(
+        text="(a) For every config id string up to 5 code points (thorough 6; two ids up to 4 each) and three root spellings, z3 proves on every path of the real "
+             "_get_rails (join, normpath, regex, commonprefix) that every directory handed to RailsConfig.from_path lies inside the root, else ValueError; a hostile "
+             "id pool goes through chat_completion for the fixed reply. (b) every sequence of <=3 (thorough 4) requests over 5 thread selectors against a reference "
+             "thread model (exact history in, history+reply stored, no mixing, short id refused), plus two arbitrary symbolic 16-17 char ids.",
+        note="Trusted: pure-Python normpath copy (differential-tested), list-backed dict for symbolic keys, recorder stubs for RailsConfig/LLMRails. "
+             "Outside: Windows semantics, HTTP/pydantic layer, streaming, longer ids.",
+        ref="4/C20"),
     "C04": dict(
         text="For 35 pattern shapes x 28 payload shapes (depth<=2, width<=3: lists, sets, dicts, nested, regex objects, scalars) with symbolic int leaves 0..2 "
              "and symbolic string leaves (len<=2, any code point), z3 proves on every path of the real matcher that score>0 iff a reference matcher written "
